@@ -108,6 +108,16 @@ def residue_tuples(res):
     return [atom_tuple(a) for a in res]
 
 
+def same_atom(a, b) -> bool:
+    """atom tuples equal, floats compared bit for bit"""
+    from .grogen import same_float
+    if a[:4] != b[:4] or (a[5] is None) != (b[5] is None):
+        return False
+    fa = list(a[4]) + (list(a[5]) if a[5] is not None else [])
+    fb = list(b[4]) + (list(b[5]) if b[5] is not None else [])
+    return len(fa) == len(fb) and all(same_float(x, y) for x, y in zip(fa, fb))
+
+
 def err_name(e: BaseException) -> str:
     n = type(e).__name__
     return "OSError" if n in ("IOError", "OSError") else n
@@ -168,6 +178,30 @@ class Toks:
 
     def residue(self):
         return self.list(self.int)
+
+    def num(self):
+        """pynum token group of Driver.Gro → python float (correctly rounded from the exact decimal)"""
+        from .grogen import dec_to_float
+        import math
+        k = self.tok()
+        sgn = self.int()
+        if k == "I":
+            return -math.inf if sgn else math.inf
+        if k == "N":
+            return math.nan
+        m = self.int()
+        e = self.int()
+        return dec_to_float(sgn, m, e)
+
+    def rrec(self):
+        """rrec of Driver.Gro → the oracle's atom tuple"""
+        resnum = self.int()
+        resname = self.str()
+        name = self.str()
+        atomnum = self.int()
+        pos = (self.num(), self.num(), self.num())
+        vel = (self.num(), self.num(), self.num()) if self.int() else None
+        return (resnum, resname, name, atomnum, pos, vel)
 
     def done(self):
         return self.i == len(self.t)
